@@ -10,6 +10,8 @@ structure St where
   cur : List (String × String) := []     -- name ↦ mutated field ("-" = base)
   launches : Nat := 0
   stops : Nat := 0
+  insts : List Inst := []                -- configured instances (model of the running set)
+  next : Nat := 0
 
 def sortStrings (l : List String) : List String := (l.toArray.qsort (· < ·)).toList
 
@@ -24,10 +26,12 @@ def parseSpec (s : String) : List (String × String) :=
     | [n, f] => some (n, f)
     | _ => none
 
-def dump (st : List (String × String)) (s : St) : String :=
+/-- `before` = the instance numbers that existed before this operation -/
+def dump (st : List (String × String)) (s : St) (before : Nat) : String :=
   let sts := sortStrings (st.map fun (n, v) => n ++ ":" ++ v)
   let names := sortStrings (s.cur.map (·.1))
-  s!"status=[{",".intercalate sts}] names=[{",".intercalate names}] launches={s.launches} stops={s.stops}"
+  let inst := sortStrings (s.insts.map fun i => i.name ++ (if i.id < before then ":k" else ":n"))
+  s!"status=[{",".intercalate sts}] names=[{",".intercalate names}] launches={s.launches} stops={s.stops} inst=[{",".intercalate inst}]"
 
 def step (s : St) (line : String) : St × String :=
   let (op, impl) := splitLine line
@@ -40,8 +44,9 @@ def step (s : St) (line : String) : St × String :=
     (s, m ++ " ||| " ++ (if relevant.contains f && impl == "true" then "bad:launch-relevant-field-ignored " ++ f else "ok"))
   | ["upinit", sp] =>
     let cur := parseSpec sp
-    let s' : St := { cur := cur, launches := cur.length, stops := 0 }
-    let d := dump [] s'
+    let insts := applyUpdate [] (projOf cur) 0
+    let s' : St := { cur := cur, launches := cur.length, stops := 0, insts := insts, next := cur.length }
+    let d := dump [] s' 0
     (s', d ++ " ||| " ++ (if impl == d then "ok" else "bad:initial-project"))
   | ["update", sp] =>
     let new := parseSpec sp
@@ -49,8 +54,10 @@ def step (s : St) (line : String) : St × String :=
     let added := (st.filter (·.2 == "added")).length
     let removed := (st.filter (·.2 == "removed")).length
     let updated := (st.filter (·.2 == "updated")).length
-    let s' : St := { cur := new, launches := s.launches + added + updated, stops := s.stops + removed + updated }
-    let d := dump st s'
+    let insts := applyUpdate s.insts (projOf new) s.next
+    let s' : St := { cur := new, launches := s.launches + added + updated, stops := s.stops + removed + updated,
+                     insts := insts, next := s.next + new.length }
+    let d := dump st s' s.next
     (s', d ++ " ||| " ++ (if impl == d then "ok" else "bad:want=" ++ d))
   | _ => (s, "bad-op")
 
